@@ -107,3 +107,11 @@ Proof.
   apply writes_bind_l; [|intros; gr]. cbn [N.eqb Pos.eqb negb]. unfold write_version_directive.
   apply writes_bind_l; [|intros; gr]. intros s1. unfold write, modify. cbn. exists [], (out s1). split; [reflexivity|apply extends_refl].
 Qed.
+
+(* canonical form: every scalar is written double-quoted, whatever its text, its requested style and the context *)
+Theorem canonical_scalars_are_double_quoted : forall impl0 v style s, canonical s = true ->
+  exists s', choose_scalar_style impl0 v style s = Ok (ChDouble, s') /\ canonical s' = true /\ out s' = out s.
+Proof.
+  intros impl0 v style s Hc. unfold choose_scalar_style, bind. unfold get_analysis, bind, get.
+  destruct (anal s) as [a|] eqn:Ea; cbn; rewrite ?Hc, ?orb_true_r; eexists; (split; [reflexivity|split; [try exact Hc; reflexivity|reflexivity]]).
+Qed.
